@@ -227,7 +227,7 @@ fn corpus() -> Vec<Case> {
     if let Some(b) = t("mozillavpn_serverconnection.gcno.gcov.json.gz") {
         v.push(Case { kind: "gcovjson", what: "mozillavpn_serverconnection.gcno.gcov.json.gz".into(), data: b, aux: vec![] });
     }
-    for stem in ["llvm/file", "llvm/file_branch", "llvm/reader"] {
+    for stem in ["llvm/file", "llvm/file_branch", "llvm/reader", "reader_gcc-7", "reader_gcc-8", "reader_gcc-10"] {
         if let (Some(g), Some(d)) = (t(&format!("{}.gcno", stem)), t(&format!("{}.gcda", stem))) {
             v.push(Case { kind: "gcno", what: format!("{}.gcno", stem), data: g.clone(), aux: d.clone() });
             v.push(Case { kind: "gcda", what: format!("{}.gcda", stem), data: d, aux: g });
@@ -238,7 +238,11 @@ fn corpus() -> Vec<Case> {
 
 const TEXT_TOKENS: &[&str] = &["", "0", "-1", "4294967295", "4294967296", "18446744073709551615", "18446744073709551616",
     "99999999999999999999999999", "e", "end_of_record", "SF:", "\n", ",", ":", "-", "\u{0}", "<", ">", "\"", "&", "nottaken", "file", "lcount"];
-const WORDS: &[u32] = &[0, 1, 2, 0x7fff_ffff, 0x8000_0000, 0xffff_ffff, 0xffff_fffe];
+const WORDS: &[u32] = &[
+    0, 1, 2, 0x7fff_ffff, 0x8000_0000, 0xffff_ffff, 0xffff_fffe,
+    // record tags: a word replaced by a tag makes a record appear where none belongs
+    0x0100_0000, 0x0141_0000, 0x0143_0000, 0x0145_0000, 0x01a1_0000, 0xa100_0000, 0xa300_0000,
+];
 
 fn derive(rng: &mut Rng, base: &Case, budget: usize, exhaustive: bool) -> Vec<Case> {
     let mut out = vec![];
@@ -357,6 +361,22 @@ fn huge_brda_branch(d: &[u8]) -> bool {
     })
 }
 
+/// some <line> has a cb/mb counter above 10^7
+fn huge_jacoco_counter(d: &[u8]) -> bool {
+    let t = String::from_utf8_lossy(d);
+    for key in ["cb=\"", "mb=\""] {
+        let mut rest: &str = &t;
+        while let Some(i) = rest.find(key) {
+            rest = &rest[i + key.len()..];
+            let digits: String = rest.chars().take_while(|c| c.is_ascii_digit()).collect();
+            if digits.len() > 20 || digits.parse::<u128>().map(|n| n > 10_000_000).unwrap_or(false) {
+                return true;
+            }
+        }
+    }
+    false
+}
+
 fn panic_site(o: &str) -> Option<String> {
     // "panic /repo/src/reader.rs:244 message" -> "reader.rs:244"
     let rest = o.strip_prefix("panic ")?;
@@ -373,7 +393,7 @@ pub fn run(rep: &mut Report) {
         .to_string();
     let mut rng = Rng::new(rep.seed ^ 0xC14);
     let exhaustive = rep.thorough();
-    let per_file = rep.budget(900, 1) as usize;
+    let per_file = rep.budget(450, 1) as usize;
     let base = corpus();
     rep.count_n("corpus.files", base.len() as u64);
     let mut cases: Vec<Case> = vec![];
@@ -420,13 +440,20 @@ pub fn run(rep: &mut Report) {
             shown += 1;
         }
         let case = json!({"op": "case", "kind": c.kind, "what": c.what, "data_hex": hex(&c.data), "aux_hex": hex(&c.aux), "outcome": o.chars().take(300).collect::<String>()});
-        if o.starts_with("panic") {
+        if o.starts_with("panic") && c.kind == "jacoco" && o.contains("capacity overflow") && huge_jacoco_counter(&c.data) {
+            rep.fail("oracle", Some("C14-jacoco-branch-vector-alloc"), format!("JaCoCo cb/mb counter used as a vector length ({})", c.what), case);
+        } else if o.starts_with("panic") && (c.kind == "gcno" || c.kind == "gcda") && o.contains("reader.rs") && o.contains("with overflow") {
+            // known finding: counters near 2^64 overflow the u64 arithmetic of the flow propagation
+            rep.fail("oracle", Some("C14-gcno-counter-overflow"), format!("arithmetic overflow in the gcno/gcda reader ({}): {}", c.what, o.chars().take(120).collect::<String>()), case);
+        } else if o.starts_with("panic") {
             let site = panic_site(o).unwrap_or_default();
             rep.fail("oracle", Some(&format!("C14-panic@{}", site)), format!("reader panicked on malformed {} input ({}): {}", c.kind, c.what, o.chars().take(160).collect::<String>()), case);
         } else if o == "timeout" || o.starts_with("crash") || o.is_empty() {
             // known finding: a BRDA branch number is an allocation size
             let finding = if c.kind == "lcov" && o.starts_with("crash") && huge_brda_branch(&c.data) {
                 Some("C14-lcov-branch-number-alloc")
+            } else if c.kind == "jacoco" && o.starts_with("crash") && huge_jacoco_counter(&c.data) {
+                Some("C14-jacoco-branch-vector-alloc")
             } else {
                 None
             };
